@@ -199,3 +199,251 @@ theorem clone_struct_default_where (s : ItemStruct) (e : Entry) (fields : List F
   simp [WCB.addC, WCB.new, plainFields, List.filter_map, Function.comp_def]
 
 end DX
+
+namespace DX
+
+/-! ### operators: the same walk over the `Self`-expanded generics, once per emitted form -/
+
+theorem opsWC_where (kind : Kind) (e : Entry) (xg : Generics) (fields : List FieldE) :
+    opsWC kind e xg fields =
+      Plan.whereClause xg { typeLevels := e.levels, variants := [{ levels := [], fields := plainFields kind fields }] } := by
+  simp only [opsWC, Entry.pushBoundsTo_walk, walk_true, fields_fold, Plan.whereClause, Plan.contrib,
+    VariantPlan.contrib, levelsContrib_nil, continues_nil, if_true, List.map_cons, List.map_nil, Contrib.concat,
+    List.foldr, Contrib.empty_append, Contrib.append_empty, WCB.addC_gps, WCB.new_gps]
+  by_cases hc : continues e.levels = true <;> simp [hc, WCB.addC_addC, Contrib.append_empty]
+
+theorem ops_where (kind : Kind) (s : ItemStruct) (e : Entry) (fields : List FieldE) :
+    ∀ w ∈ (buildOps kind s e fields).wcs,
+      w = Plan.whereClause (s.generics.expandSelf (thisTy s.name s.generics))
+            { typeLevels := e.levels, variants := [{ levels := [], fields := plainFields kind fields }] } := by
+  intro w hw
+  simp only [buildOps, List.mem_map] at hw
+  obtain ⟨_, _, rfl⟩ := hw
+  exact opsWC_where kind e _ fields
+
+/-! ### Default: level 1 is `#[default(_, bound(..))]`; a field with an explicit value is not "used" -/
+
+def defaultFieldPlans (fields : List FieldE) : List FieldPlan :=
+  fields.map fun f => { levels := f.h.levels true .dflt, ty := f.field.ty, used := (f.h.defaultValue f.field.ty).isNone }
+
+theorem defaultCtorArgs_where (fields : List FieldE) (use : Bool) (w : WCB) :
+    (defaultCtorArgs fields use w).2 =
+      if use then w.addC (Contrib.concat ((defaultFieldPlans fields).map (FieldPlan.contrib w.gps))) else w := by
+  unfold defaultCtorArgs
+  have step : ∀ (acc : List DefVal) (w : WCB),
+      (fields.foldl (fun (p : List DefVal × WCB) f =>
+        let value := f.h.defaultValue f.field.ty
+        let (w, u) := f.h.pushBoundsTo use .dflt p.2
+        let w := if u && value.isNone then w.pushField f.field.ty else w
+        (p.1 ++ [value.getD (.dflt f.field.ty)], w)) (acc, w)).2 =
+      if use then w.addC (Contrib.concat ((defaultFieldPlans fields).map (FieldPlan.contrib w.gps))) else w := by
+    induction fields with
+    | nil => intro acc w; cases use <;> simp [defaultFieldPlans, Contrib.concat, WCB.addC_empty]
+    | cons f fs ih =>
+      intro acc w
+      simp only [List.foldl_cons]
+      rw [ih]
+      simp only [HAttrs.pushBoundsTo, HAttrs.pushBoundsToRaw_walk, walk_eq]
+      cases use
+      · simp
+      · simp only [if_true, defaultFieldPlans, List.map_cons, Contrib.concat, List.foldr, FieldPlan.contrib]
+        by_cases hc : continues (f.h.levels true .dflt) = true
+        · by_cases hv : (f.h.defaultValue f.field.ty).isNone = true
+          · by_cases hm : Ty.mentions w.gps f.field.ty = true
+            · simp [hc, hv, hm, WCB.pushField, WCB.addC, List.append_assoc]
+            · simp [hc, hv, hm, WCB.pushField, WCB.addC, List.append_assoc]
+          · simp [hc, hv, WCB.addC, List.append_assoc]
+        · simp [hc, WCB.addC, List.append_assoc]
+  simpa using step [] w
+
+theorem default_struct_where (s : ItemStruct) (e : Entry) (h : HAttrs) (fields : List FieldE)
+    (hn : h.defaultValue Ty.selfTy = none) :
+    (buildDefaultStruct s e h fields).wc =
+      Plan.whereClause s.generics
+        { typeLevels := h.levels true .dflt ++ e.levels,
+          variants := [{ levels := [], fields := defaultFieldPlans fields }] } := by
+  simp only [buildDefaultStruct, hn, Entry.pushBoundsToWith_walk, walk_true, defaultCtorArgs_where, Plan.whereClause,
+    Plan.contrib, VariantPlan.contrib, levelsContrib_nil, continues_nil, if_true, List.map_cons, List.map_nil,
+    Contrib.concat, List.foldr, Contrib.empty_append, Contrib.append_empty, WCB.addC_gps, WCB.new_gps]
+  by_cases hc : continues (h.levels true .dflt ++ e.levels) = true <;> simp [hc, WCB.addC_addC, Contrib.append_empty]
+
+/-- a type-level `#[default(value)]` makes every field unused: only the type-level chain contributes -/
+theorem default_struct_where_value (s : ItemStruct) (e : Entry) (h : HAttrs) (fields : List FieldE) (v : DefVal)
+    (hv : h.defaultValue Ty.selfTy = some v) :
+    (buildDefaultStruct s e h fields).wc =
+      Plan.whereClause s.generics { typeLevels := h.levels true .dflt ++ e.levels, variants := [] } := by
+  simp only [buildDefaultStruct, hv, Entry.pushBoundsToWith_walk, walk_true, Plan.whereClause, Plan.contrib,
+    List.map_nil, Contrib.concat, List.foldr]
+  by_cases hc : continues (h.levels true .dflt ++ e.levels) = true <;> simp [hc, Contrib.append_empty]
+
+/-! ### Debug (struct): level 1 is `#[debug(bound(..))]`; ignored fields are not walked at all -/
+
+theorem debug_struct_where (s : ItemStruct) (e : Entry) (h : HAttrs) (fields : List FieldE) (d : DebugImpl)
+    (hb : buildDebugStruct s e h fields = .ok d) :
+    d.wc = Plan.whereClause s.generics
+      { typeLevels := h.levels true .debug ++ e.levels,
+        variants := [{ levels := [],
+                       fields := plainFields .debug
+                         (match transparentFields fields with | [f] => [f] | _ => shownFields fields) }] } := by
+  unfold buildDebugStruct at hb
+  simp only [bind, Except.bind, pure, Except.pure, Entry.pushBoundsToWith_walk, walk_true] at hb
+  unfold debugExpr at hb
+  unfold transparentFields shownFields
+  cases ht : fields.filter (·.h.debug.transparent) with
+  | nil =>
+    rw [ht] at hb
+    simp only [pure, Except.pure, Except.ok.injEq] at hb
+    subst hb
+    simp only [fields_fold, Plan.whereClause, Plan.contrib, VariantPlan.contrib, levelsContrib_nil, continues_nil, if_true,
+      List.map_cons, List.map_nil, Contrib.concat, List.foldr, Contrib.empty_append, Contrib.append_empty, WCB.addC_gps,
+      WCB.new_gps]
+    by_cases hc : continues (h.levels true .debug ++ e.levels) = true <;> simp [hc, WCB.addC_addC, Contrib.append_empty]
+  | cons f rest =>
+    rw [ht] at hb
+    cases rest with
+    | cons g rest' => simp [bail] at hb
+    | nil =>
+      simp only [pure, Except.pure, Except.ok.injEq] at hb
+      subst hb
+      simp only [FieldE.pushBoundsTo_contrib, Plan.whereClause, Plan.contrib, VariantPlan.contrib, levelsContrib_nil,
+        continues_nil, if_true, plainFields, List.map_cons, List.map_nil, Contrib.concat, List.foldr, Contrib.empty_append,
+        Contrib.append_empty, WCB.addC_gps, WCB.new_gps]
+      by_cases hc : continues (h.levels true .debug ++ e.levels) = true <;> simp [hc, WCB.addC_addC, Contrib.append_empty]
+
+/-! ### the comparison traits: level 7 is the chain of helper attributes consulted for the field — most specific
+first, cut at the first one that supplies `key` / `by`; a field compared through `key` / `by` is not "used" -/
+
+/-- the helper attributes a field's comparator selection consults, in order, and where consultation ends -/
+def selLevels (op : CmpOp) (c : CmpHs) : List Bounds :=
+  match op with
+  | .partialEq =>
+    c.partialEq.bounds :: (if c.partialEq.hasKeyBy then [] else
+    c.eq.bounds :: (if c.eq.hasKeyBy then [] else
+    c.partialOrd.bounds :: (if c.partialOrd.hasKeyBy then [] else [c.ord.bounds])))
+  | .eq => c.eq.bounds :: (if c.eq.hasKeyBy then [] else [c.ord.bounds])
+  | .partialOrd => c.partialOrd.bounds :: (if c.partialOrd.hasKeyBy then [] else [c.ord.bounds])
+  | .ord => [c.ord.bounds]
+  | .hash =>
+    c.hash.bounds :: (if c.hash.hasKeyBy then [] else
+    c.eq.bounds :: (if c.eq.key.isSome then [] else [c.ord.bounds]))
+
+theorem selBounds_walk (c : CmpHs) (op : CmpOp) (use : Bool) (w : WCB) :
+    c.selBounds op use w = walk w use (selLevels op c) := by
+  cases op <;> simp only [CmpHs.selBounds, selLevels]
+  · simp [walk]
+  · cases c.partialOrd.hasKeyBy <;> simp [walk]
+  · cases c.eq.hasKeyBy <;> simp [walk]
+  · cases c.partialEq.hasKeyBy <;> cases c.eq.hasKeyBy <;> cases c.partialOrd.hasKeyBy <;> simp [walk]
+  · cases c.hash.hasKeyBy <;> cases c.eq.key.isSome <;> simp [walk]
+
+def cmpFieldPlan (op : CmpOp) (cf : CmpField) : FieldPlan :=
+  { levels := selLevels op cf.f.h.cmp ++ cf.f.h.itemLevels (.cmp op), ty := cf.f.field.ty,
+    used := match cf.sel with | .dflt => true | _ => false }
+
+theorem cmpField_step (op : CmpOp) (use : Bool) (w : WCB) (cf : CmpField) :
+    cmpFieldBounds1 op use w cf =
+      if use then w.addC (FieldPlan.contrib w.gps (cmpFieldPlan op cf)) else w := by
+  unfold cmpFieldBounds1
+  obtain ⟨f, sel, rev⟩ := cf
+  have hw : walk (walk w use (selLevels op f.h.cmp)).1 (walk w use (selLevels op f.h.cmp)).2
+      (f.h.levels false (.cmp op)) = walk w use (selLevels op f.h.cmp ++ f.h.itemLevels (.cmp op)) := by
+    rw [walk_append]; simp [HAttrs.levels]
+  simp only [selBounds_walk, HAttrs.pushBoundsToRaw_walk]
+  rw [hw, walk_eq]
+  cases use
+  · cases sel <;> simp
+  · simp only [if_true, cmpFieldPlan, FieldPlan.contrib]
+    by_cases hc : continues (selLevels op f.h.cmp ++ f.h.itemLevels (.cmp op)) = true
+    · cases sel with
+      | dflt =>
+        by_cases hm : Ty.mentions w.gps f.field.ty = true
+        · simp [hc, hm, WCB.pushField, WCB.addC, List.append_assoc]
+        · simp [hc, hm, WCB.pushField, WCB.addC, List.append_assoc]
+      | by_ a e => simp [hc, Contrib.append_empty]
+      | key a k => simp [hc, Contrib.append_empty]
+    · cases sel <;> simp [hc, Contrib.append_empty]
+
+theorem cmpFieldsBounds_where (op : CmpOp) (fs : List CmpField) (use : Bool) (w : WCB) :
+    cmpFieldsBounds op fs use w =
+      if use then w.addC (Contrib.concat ((fs.map (cmpFieldPlan op)).map (FieldPlan.contrib w.gps))) else w := by
+  unfold cmpFieldsBounds
+  cases use
+  · simp only [Bool.false_eq_true, if_false]
+    apply foldl_id
+    intro w cf
+    simp [cmpField_step]
+  · simp only [if_true, List.map_map]
+    apply foldl_addC _ _ _ w.gps _ _ rfl
+    intro w' cf hw'
+    simp [cmpField_step, hw']
+
+/-- comparison traits on a struct: type level = the helper attributes affecting the trait (most specific first), then
+the entry's two arguments; then per compared field the chain above -/
+theorem cmp_struct_where (op : CmpOp) (name : String) (g : Generics) (fields : List FieldE) (e : Entry) (h : HAttrs)
+    (c : CmpImpl) (hb : buildCmp op (.struct_ name g fields) e h = .ok c) :
+    c.wc = Plan.whereClause (g.expandSelf (thisTy name g))
+      { typeLevels := h.levels true (.cmp op) ++ e.levels,
+        variants := [{ levels := [], fields := (docFieldsOut op fields).map (cmpFieldPlan op) }] } := by
+  simp only [buildCmp, Source.generics, Source.name, cmpFields_eq_doc, bind, Except.bind, pure, Except.pure] at hb
+  by_cases hm : fieldsMisused op fields = true
+  · simp [hm] at hb
+  · simp only [hm, Bool.false_eq_true, if_false, Except.ok.injEq] at hb
+    subst hb
+    simp only [Entry.pushBoundsToWith_walk, walk_true, cmpFieldsBounds_where, Plan.whereClause, Plan.contrib,
+      VariantPlan.contrib, levelsContrib_nil, continues_nil, if_true, List.map_cons, List.map_nil, Contrib.concat,
+      List.foldr, Contrib.empty_append, Contrib.append_empty, WCB.addC_gps, WCB.new_gps]
+    by_cases hc : continues (h.levels true (.cmp op) ++ e.levels) = true <;> simp [hc, WCB.addC_addC, Contrib.append_empty]
+
+end DX
+
+namespace DX
+
+def cmpVariantPlan (op : CmpOp) (vf : VariantE × List CmpField) : VariantPlan :=
+  { levels := vf.1.h.levels true (.cmp op), fields := vf.2.map (cmpFieldPlan op) }
+
+theorem cmpVariant_step (op : CmpOp) (use : Bool) (w : WCB) (vf : VariantE × List CmpField) :
+    (let (w', u) := vf.1.h.pushBoundsTo use (.cmp op) w
+     cmpFieldsBounds op vf.2 u w') =
+      if use then w.addC (VariantPlan.contrib w.gps (cmpVariantPlan op vf)) else w := by
+  simp only [HAttrs.pushBoundsTo, HAttrs.pushBoundsToRaw_walk, walk_eq, cmpFieldsBounds_where]
+  cases use
+  · simp
+  · simp only [if_true, VariantPlan.contrib, cmpVariantPlan, WCB.addC_gps]
+    by_cases hc : continues (vf.1.h.levels true (.cmp op)) = true <;> simp [hc, WCB.addC_addC, Contrib.append_empty]
+
+/-- comparison traits on an enum: the variant level (helper attributes most specific first, then the variant's
+`#[derive_ex(..)]`) sits between the type and the fields; a stop on a variant is local to it -/
+theorem cmp_enum_where (op : CmpOp) (name : String) (g : Generics) (variants : List VariantE) (e : Entry) (h : HAttrs)
+    (c : CmpImpl) (hb : buildCmp op (.enum_ name g variants) e h = .ok c) :
+    c.wc = Plan.whereClause (g.expandSelf (thisTy name g))
+      { typeLevels := h.levels true (.cmp op) ++ e.levels,
+        variants := (variants.map fun v => (v, docFieldsOut op v.fields)).map (cmpVariantPlan op) } := by
+  simp only [buildCmp, Source.generics, Source.name, variants_mapM_doc, bind, Except.bind, pure, Except.pure] at hb
+  by_cases hm : (variants.any fun v => fieldsMisused op v.fields) = true
+  · simp [hm] at hb
+  · simp only [hm, Bool.false_eq_true, if_false, Except.ok.injEq] at hb
+    subst hb
+    simp only [Entry.pushBoundsToWith_walk, walk_true, Plan.whereClause, Plan.contrib, WCB.addC_gps, WCB.new_gps]
+    have hfold : ∀ (use : Bool) (w : WCB) (l : List (VariantE × List CmpField)),
+        l.foldl (fun w x =>
+          let (w', u) := x.1.h.pushBoundsTo use (.cmp op) w
+          cmpFieldsBounds op x.2 u w') w =
+        if use then w.addC (Contrib.concat ((l.map (cmpVariantPlan op)).map (VariantPlan.contrib w.gps))) else w := by
+      intro use w l
+      cases use
+      · simp only [Bool.false_eq_true, if_false]
+        apply foldl_id
+        intro w x
+        have := cmpVariant_step op false w x
+        simpa using this
+      · simp only [if_true, List.map_map]
+        apply foldl_addC _ _ _ w.gps _ _ rfl
+        intro w' x hw'
+        have := cmpVariant_step op true w' x
+        simp only [if_true] at this
+        rw [← hw']
+        exact this
+    rw [hfold]
+    by_cases hc : continues (h.levels true (.cmp op) ++ e.levels) = true <;> simp [hc, WCB.addC_addC, Contrib.append_empty]
+
+end DX
